@@ -47,6 +47,7 @@ def worker(task):
         inject.install(getattr(mod, 'EXTRA_STUBS', None))
         sx.reset_stats()
         first = [want_profile]
+        nfail = [0]
 
         def fn():
             src = scen.SymSource()
@@ -82,6 +83,9 @@ def worker(task):
                 res['nobl'] += 1
                 ok, m = sx.valid(f)
                 if not ok:
+                    if nfail[0] < 25 and hasattr(mod, 'prefer'):
+                        m = _prefer_model(ctx, f, mod.prefer(rec), m)
+                    nfail[0] += 1
                     res['fails'].append((name, sx.model_dict(m), None))
             res['wit'] = list(mod.witnesses(rec))
             if len(out['samples']) < 2:
@@ -122,6 +126,31 @@ def worker(task):
         out['error'] = "%s: %s\n%s" % (type(e).__name__, e, traceback.format_exc())
     out['wall'] = time.time() - t0
     return out
+
+
+def _prefer_model(ctx, claim, prefs, m):
+    """counterexample extraction with soft preferences (greedy, in priority order): keeps the
+    violation but steers the model towards simple, reachable-looking inputs"""
+    import z3
+    s = ctx.solver
+    depth = 0
+    try:
+        s.push()
+        depth += 1
+        s.add(z3.Not(claim))
+        for c in prefs:
+            s.push()
+            depth += 1
+            s.add(c)
+            if s.check() == z3.sat:
+                m = s.model()
+            else:
+                s.pop()
+                depth -= 1
+    finally:
+        for _ in range(depth):
+            s.pop()
+    return m
 
 
 def _jsonable_log(log):
